@@ -39,6 +39,7 @@ fn profile_of(s: &str) -> arena::Profile {
         "panics" => Panics,
         "apisweep" => ApiSweep,
         "deep" => Deep,
+        "deephop" => DeepHop,
         _ => {
             eprintln!("MACHINERY: unknown profile {s}");
             std::process::exit(2)
